@@ -26,6 +26,32 @@ def block_of(part, s):
     raise ValueError('scenario %s not in partition %s' % (s, part))
 
 
+NPOLY = 720
+
+
+def mu_hrep(pieces, d):
+    """H-representation of a set of means; a 2-norm ball is replaced by a regular 720-gon of mid radius
+    (d == 2, error < 5e-6 r) or by its end points (d == 1)."""
+    poly = [pc for pc in pieces if pc['k'] != 'n2']
+    C, dd, Ce, de = S._hrep(poly, d)
+    C, dd = list(C), list(dd)
+    for pc in pieces:
+        if pc['k'] != 'n2':
+            continue
+        c = np.array(pc['c'], float)
+        if d == 1:
+            C += [np.array([1.0]), np.array([-1.0])]
+            dd += [c[0] + pc['r'], -c[0] + pc['r']]
+        elif d == 2:
+            rr = pc['r'] * (1 + np.cos(np.pi / NPOLY)) / 2
+            for th in np.linspace(0, 2 * np.pi, NPOLY, endpoint=False):
+                a = np.array([np.cos(th), np.sin(th)])
+                C.append(a); dd.append(rr + a @ c)
+        else:
+            raise ValueError('2-norm expectation sets only for d <= 2')
+    return np.array(C, float).reshape(-1, d), np.array(dd, float), Ce, de
+
+
 def amb_data(spec, amb):
     """Vertex lists and the inner-LP rows of an ambiguity set {supp, expts, prob}."""
     d, ns = spec['d'], spec['S']
@@ -46,7 +72,19 @@ def amb_data(spec, amb):
     Aub, bub, Aeq, beq = [], [], [np.ones(nq)], [1.0]
     pr = amb.get('prob', {'kind': 'free'})
     kind = pr['kind']
-    if kind != 'free':
+    pcurved = None
+    if kind in ('n2', 'kl'):
+        if amb.get('expts'):
+            raise ValueError('curved probability sets are only supported without expectation sets')
+        pcs = [{'k': 'eq', 'A': [[1.0] * ns], 'b': [1.0]}]
+        pcs.append({'k': 'n2', 'c': list(pr['phat']), 'r': pr['r']} if kind == 'n2'
+                   else {'k': 'kl', 'q': list(pr['phat']), 'r': pr['r']})
+        if ns == 1:
+            pcurved = np.array([[1.0]])
+        else:
+            Vp, eps = S.points(pcs, ns, list(pr['phat']))
+            pcurved = Vp if len(Vp) <= 4000 else Vp[::len(Vp) // 2000]
+    elif kind != 'free':
         phat = np.array(pr['phat'], float)
         if kind == 'fixed':
             for s in range(ns):
@@ -62,7 +100,7 @@ def amb_data(spec, amb):
         else:
             raise ValueError(kind)
     for ex in amb.get('expts', []):
-        C, dd, Ce, de = S._hrep(ex['pieces'], d)
+        C, dd, Ce, de = mu_hrep(ex['pieces'], d)
         ev = ex['event']
         M = np.zeros((d, nq))       # sum_{s in ev} sum_v q[s,v] v
         pe = np.zeros(nq)
@@ -73,13 +111,16 @@ def amb_data(spec, amb):
             Aub.append(row @ M - rhs * pe); bub.append(0.0)
         for row, rhs in zip(Ce, de):
             Aeq.append(row @ M - rhs * pe); beq.append(0.0)
-    return dict(Vs=Vs, off=off, nq=nq,
+    return dict(Vs=Vs, off=off, nq=nq, pcurved=pcurved,
                 Aub=np.array(Aub).reshape(-1, nq), bub=np.array(bub, float),
                 Aeq=np.array(Aeq).reshape(-1, nq), beq=np.array(beq, float))
 
 
 def worst_expectation(ad, fvals):
     """max sum q f  over the ambiguity set; fvals: array of length nq.  -> (status, value)."""
+    if ad.get('pcurved') is not None:
+        F = np.array([np.max(fvals[ad['off'][s]:ad['off'][s + 1]]) for s in range(len(ad['Vs']))])
+        return 'optimal', float((ad['pcurved'] @ F).max())
     res = linprog(-np.asarray(fvals, float), A_ub=ad['Aub'] if len(ad['Aub']) else None,
                   b_ub=ad['bub'] if len(ad['Aub']) else None, A_eq=ad['Aeq'], b_eq=ad['beq'],
                   bounds=[(0, None)] * ad['nq'], method='highs')
@@ -248,6 +289,22 @@ def solve(spec):
         """sup_P E[max_k piece_k] <= bound  where bound_row is (coef dict over existing vars, const):
         introduce multipliers lam>=0 (ub rows), mu free (eq rows): b.lam + beq.mu <= bound ;
         for every (s,v), k:  piece_k(s,v) - (A'lam + Aeq'mu)_{s,v} <= 0."""
+        if ad.get('pcurved') is not None:
+            # sup_p sum_s p_s F_s with F_s >= piece_k(s, v): rows for every listed boundary point p
+            oF = new_vars(spec['S'], None, None)
+            coef, const = bound_row
+            for pvec in ad['pcurved']:
+                r = {oF + s_: pvec[s_] for s_ in range(spec['S'])}
+                for k_, val in coef.items():
+                    r[k_] = r.get(k_, 0.0) - val
+                rows_ub.append(r); rhs_ub.append(const)
+            for s_ in range(spec['S']):
+                for v in ad['Vs'][s_]:
+                    for c, k_ in pieces_fn(s_, v):
+                        r = {j: c[j] for j in np.flatnonzero(c)}
+                        r[oF + s_] = r.get(oF + s_, 0.0) - 1.0
+                        rows_ub.append(r); rhs_ub.append(-k_)
+            return
         nl, nm = len(ad['bub']), len(ad['beq'])
         ol = new_vars(nl, 0.0, None)
         om = new_vars(nm, None, None)
